@@ -27,6 +27,7 @@ from sa.pyfront import Program
 from sa.symex import Interp
 
 RULES = {
+    "R-C02-i": "pooled evaluation: reduce (marginal differencing) runs only after every sub-cube task has finished - blocking, re-raising dispatch on a pool created for the call (imported from the C16 analysis)",
     "R-C02-h": "every region an aggregate allocates is 64-bit int/float (or the fact array's own dtype): wide enough for any row count and for the negative intermediate values of marginal differencing",
     "R-C02-g": "every sub-cube task walks its dimensions: the task function has no early return (one taken only when NO dimension has an entry is harmless; one taken when SOME dimension has none skips the margins of the others)",
     "R-C02-f": "walk schema (imported from the C14 analysis): every non-empty uncommon and marginal intersection is presented exactly once, with no early exit from the entry loops",
@@ -199,6 +200,15 @@ def main(tier):
         rep.add(rule, where, cons, status, detail, True, wit)
     rep.floor("R-C02-h", 4, nd)
     rule_g(prog, rep)
+    import c16
+    sub16 = core.Report("C16", level="other", rules=c16.RULES, tier=tier)
+    c16.analyse_one(prog, "ccubes", "ccube", sub16)
+    k16 = 0
+    for o in sub16.obls:
+        if o.rule in ("R-C16-c", "R-C16-e"):
+            k16 += 1
+            rep.add("R-C02-i", o.where, "[%s] %s" % (o.rule, o.construct), o.status, o.detail, True, o.witness)
+    rep.floor("R-C02-i", 2, k16)
     # R-C02-f: the counts are laid down by the walk: its schema (every non-empty uncommon / marginal
     # intersection presented exactly once, no early exit) is decided by the C14 analysis and imported here
     import c14
